@@ -27,7 +27,10 @@ pub mod ed25519;
 #[cfg(feature = "rsa")]
 pub mod rsa;
 
+#[cfg(not(feature = "verif"))]
 pub(crate) mod noise;
+#[cfg(feature = "verif")]
+pub mod noise;
 #[cfg(feature = "quic")]
 pub(crate) mod tls;
 pub(crate) mod keys_proto {
